@@ -75,6 +75,7 @@ func (r *rendezvousReader) Read(p []byte) (int, error) {
 }
 
 func c17TwoRestores(c *core.Ctx, idx int) {
+	c17SamePathAfterRestore(c, idx)
 	path := c.TempFile("c17t")
 	db, err := boltz.Open(path, "root")
 	if err != nil {
@@ -247,5 +248,108 @@ func c17TwoRestores(c *core.Ctx, idx int) {
 		} else if state, problem := readState(); state != "C" || problem != "" {
 			c.Violationf("C17 two restores at the same time: a write afterwards is not what is read", info, "marker %q: %s", state, problem)
 		}
+	}
+}
+
+// c17SamePathAfterRestore: a snapshot path that already holds a snapshot is written again after a restore has taken the
+// database back. State A; snapshot to p1; ONE more transaction (state B); snapshot to p2; restore p1 (A again);
+// snapshot to p2 once more - the file must now hold A, and restoring it after further writes gives A.
+func c17SamePathAfterRestore(c *core.Ctx, idx int) {
+	path := c.TempFile("c17m")
+	db, err := boltz.Open(path, "root")
+	if err != nil {
+		c.Violation("C17 setup", err.Error(), nil)
+		return
+	}
+	defer func() {
+		_ = db.Close()
+		matches, _ := filepath.Glob(path + "*")
+		for _, m := range matches {
+			_ = os.Remove(m)
+		}
+	}()
+	put := func(state string) error {
+		return db.Update(nil, func(ctx boltz.MutateContext) error {
+			b := boltz.GetOrCreatePath(ctx.Tx(), "root", "data")
+			b.SetString("state", state, nil)
+			return b.GetError()
+		})
+	}
+	get := func(d boltz.Db) string {
+		out := "<none>"
+		_ = d.View(func(tx *bbolt.Tx) error {
+			if b := boltz.Path(tx, "root", "data"); b != nil {
+				out = b.GetStringWithDefault("state", "<nil>")
+			}
+			return nil
+		})
+		return out
+	}
+	p1, p2 := path+".snap1", path+".snap2"
+	fail := func(what string, err error) bool {
+		if err != nil {
+			c.Violationf("C17 snapshot to a path that holds an earlier snapshot: "+what+" failed", nil, "%v", err)
+			return true
+		}
+		return false
+	}
+	// a few transactions first, so that transaction ids of the two files can meet in different ways
+	for i := 0; i <= idx%3; i++ {
+		if fail("setup write", put(fmt.Sprintf("pre-%d", i))) {
+			return
+		}
+	}
+	if fail("write A", put("A")) {
+		return
+	}
+	_, idA, err := db.Snapshot(p1)
+	if fail("snapshot of A", err) {
+		return
+	}
+	if fail("write B", put("B")) {
+		return
+	}
+	_, idB, err := db.Snapshot(p2)
+	if fail("snapshot of B", err) {
+		return
+	}
+	snapA, err := os.ReadFile(p1)
+	if fail("reading the first snapshot", err) {
+		return
+	}
+	db.RestoreSnapshot(snapA)
+	if got := get(db); got != "A" {
+		c.Violationf("C17 restore of the first snapshot", nil, "state %q, expected A", got)
+		return
+	}
+	_, idA2, err := db.Snapshot(p2)
+	if fail("second snapshot to the same path", err) {
+		return
+	}
+	c.Eval()
+	c.Count("snapshots_over_an_earlier_snapshot_after_a_restore", 1)
+	info := map[string]any{"snapshot_ids": []string{idA, idB, idA2}, "transactions_before_A": idx%3 + 1}
+	if other, err := boltz.Open(p2, "root"); err == nil {
+		if got := get(other); got != "A" {
+			c.Violationf("C17 a snapshot written over an earlier snapshot file holds the earlier snapshot's state, not the database's", info, "the file holds state %q, the database is at A", got)
+		}
+		if sid, _ := other.GetSnapshotId(); sid == nil || *sid != idA2 {
+			c.Violationf("C17 the snapshot file does not carry the id Snapshot returned", info, "file: %v, returned %q", derefS(sid), idA2)
+		}
+		_ = other.Close()
+	} else {
+		c.Violationf("C17 the snapshot file cannot be opened", info, "%v", err)
+	}
+	if fail("write C", put("C")) {
+		return
+	}
+	snap2, err := os.ReadFile(p2)
+	if fail("reading the second snapshot", err) {
+		return
+	}
+	db.RestoreSnapshot(snap2)
+	c.Nontrivial("samepath", idx%3)
+	if got := get(db); got != "A" {
+		c.Violationf("C17 restoring the snapshot taken at state A (over an earlier snapshot's file) does not give state A", info, "state %q", got)
 	}
 }
